@@ -1,1 +1,3 @@
-
+import ZkProofs.Lawful
+import ZkProofs.Lemmas.Sig
+import ZkProofs.Props.C01
